@@ -21,7 +21,11 @@ Verdict(c) ==
 \* drift of the descriptive model of unify (AxisAlg!AuUnify): another outcome, or another set of solutions, than the model
 \* computes on the terms the enumerator asked for.  Reported, never gating.
 Drift(c) ==
-  IF c.kind # "unify" \/ c.out # "ok" THEN "none"
+  IF c.kind = "antiunify" /\ c.out = "ok" THEN
+       \* the same pairs of sub-terms are generalised as in the model of antiunify (on the read-back operands)
+       LET m == AnAsCase(c.es, c.fs) IN
+       IF { <<m.an[i].l, m.an[i].r>> : i \in DOMAIN m.an } # { <<c.an[i].l, c.an[i].r>> : i \in DOMAIN c.an } THEN "generalised_pairs" ELSE "none"
+  ELSE IF c.kind # "unify" \/ c.out # "ok" THEN "none"
   ELSE LET m == AuAsCase(c.ges, c.gfs) IN
        IF m.ok # c.ok THEN "outcome"
        ELSE IF c.ok /\ AaParam(m) # AaParam([c EXCEPT !.es = c.ges, !.fs = c.gfs]) THEN "solutions"
